@@ -144,7 +144,7 @@ def gen_c15(rnd, n, thorough=False):
         tags = {'ops': {}}
         def add(op, line):
             lines.append(line); tags['ops'][op] = tags['ops'].get(op, 0) + 1
-        kind = rnd.pick(['decoders', 'decoders', 'file_truncated', 'file_garbage_slots', 'file_garbage_slots', 'file_garbage_slots', 'file_huge_header', 'file_random', 'file_bitflip'])
+        kind = rnd.pick(['decoders', 'decoders', 'file_truncated', 'file_garbage_slots', 'file_garbage_slots', 'file_garbage_slots', 'file_huge_header', 'file_random', 'file_bitflip', 'file_field', 'file_field'])
         if kind == 'decoders':
             for _ in range(rnd.randint(3, 8)):
                 k2, _line, enc = gen_object(rnd)
@@ -165,6 +165,11 @@ def gen_c15(rnd, n, thorough=False):
                         un = rnd.pick([0, 2 ** 32 - 1, fr, fr + 1, 2 ** 31])
                         st = rnd.pick([0, 1, 2 ** 31 - 1, 2 ** 31, 2 ** 32 - 1, 8, 3])
                         b = be32(fr) + be32(un) + be32(st) + bytes(rnd.getrandbits(8) for _ in range(rnd.pick([0, 8, 16])))
+                    elif k2 == 'header' and enc and rnd.chance(0.5):
+                        j = rnd.pick([0, 0, 1, 2, 3, 4, 5, 6])
+                        j = min(j, len(enc) // 4 - 1)
+                        v = rnd.pick([0, 7, 8, 9, 2 ** 31, 2 ** 32 - 1]) if j == 0 else rnd.pick([0, 1, 2 ** 31 - 1, 2 ** 31, 2 ** 32 - 1, 0x7fc00000])
+                        b = enc[:4 * j] + be32(v) + enc[4 * j + 4:]
                     elif k2 == 'header':
                         b = be32(rnd.pick([1, 2, 6, 0, 7])) + be32(rnd.getrandbits(32)) + be32(rnd.pick(XFF_VALID + [0x7fc00000])) + be32(cnt & 0xffffffff) \
                             + bytes(rnd.getrandbits(8) for _ in range(rnd.pick([0, 12, 24])))
@@ -198,6 +203,16 @@ def gen_c15(rnd, n, thorough=False):
                 img = enc_header_py(m, xff, lay) + bytes(rnd.pick([0, 8, 12, 100]))
             elif kind == 'file_random':
                 img = bytes(rnd.getrandbits(8) for _ in range(rnd.pick([0, 5, 16, 28, 40, 200])))
+            elif kind == 'file_field':
+                # one 32-bit header field of an otherwise valid file replaced by a neighbouring or
+                # extreme value (aggregation type 7 and 8 are reserved names the code cannot aggregate)
+                j = rnd.pick([0, 0, 0, 1, 2, 3] + list(range(4, 4 + 3 * k)))
+                cur = int.from_bytes(img[4 * j:4 * j + 4], 'big')
+                if j == 0:
+                    v = rnd.pick([0, 7, 7, 8, 8, 9, 255, 2 ** 31, 2 ** 32 - 1])
+                else:
+                    v = rnd.pick([0, 1, cur + 1, max(cur - 1, 0), cur + 12, 2 ** 31 - 1, 2 ** 31, 2 ** 32 - 1, 0x7fc00000, 0xbf800000, 0x3f800001])
+                img = img[:4 * j] + be32(v) + img[4 * j + 4:]
             elif kind == 'file_bitflip':
                 b = bytearray(img)
                 for _f in range(rnd.randint(1, 4)):
